@@ -147,6 +147,16 @@ pub fn lib_resolver(text: &str, style: ScalarStyle, tag: &TagT) -> M {
     }
 }
 
+/// C07's resolver: the library's own, except where the value does not depend on the core schema's
+/// regular expressions at all — an untagged scalar that is not plain is its text (YAML 1.2.2
+/// 10.3.2: only plain scalars are matched against the schema).
+pub fn c07_resolver(text: &str, style: ScalarStyle, tag: &TagT) -> M {
+    if tag.is_none() && style != ScalarStyle::Plain {
+        return M::Str(text.to_string());
+    }
+    lib_resolver(text, style, tag)
+}
+
 /// Keep the representation (deferred resolution).
 pub fn repr_resolver(text: &str, style: ScalarStyle, tag: &TagT) -> M {
     M::Repr(text.to_string(), style, tag.clone())
